@@ -221,7 +221,7 @@ def c01_opts(rng):
 
 
 def c05_opts(rng):
-    return ({}, {"depth": [0, 1, 2], "both_modes": True, "optimize_p": 0.8, "authuser": 0.15, "backends": 0.1})
+    return ({"zero_backend_p": 0.4}, {"depth": [0, 1, 2], "both_modes": True, "optimize_p": 0.8, "authuser": 0.15, "backends": 0.1})
 
 
 def c06_opts(rng):
@@ -361,12 +361,16 @@ REGISTRY = {
         "assumptions": ["virtual clock", "MaxParallelPeerConnections 1 (serial rebuild, so that the failing fetch is determined)", "Icinga2 count-probe reload is not modelled"],
     },
     "C18": {
-        "lean_modules": ["C18"],
+        "lean_modules": ["C18", "C18Nodes", "C18Dist"],
         "run": c18.run,
         "rule": "exhaustive: every cluster shape with 1-4 nodes, every non-empty subset of online nodes, every own index among the online nodes, 0-8 backends (thorough: 0-12); Nodes.redistribute is run in-package and compared with Lmd.redistribute, "
-                "and the partition / offline / evenness statements are evaluated on the implementation's assignment; non-trivial = at least two backends and two online nodes",
-        "correspondence": "Lmd.redistribute / quotas / handOut vs Nodes.redistribute",
-        "assumptions": ["node discovery (pings over HTTP) and the distributed query path are not exercised by this check (see DESIGN.md)"],
+                "and the partition / offline / evenness statements are evaluated on the implementation's assignment; non-trivial = at least two backends and two online nodes. "
+                "Running clusters: 5 (thorough 40) histories of 2-3 daemons started like mainLoop starts them, each with an http listener, configured as nodes of one cluster over 1-5 scripted backends of mixed flavours; "
+                "nodes join, leave, are replaced without a change of their number, and restart; after every running node looked at its partners twice the implementation's bookkeeping must be a partition over the running nodes, "
+                "as even as the counts allow, every node's view must say what the others serve and equal Lmd.NodeView.check; then 14 (thorough 30) generated data/Stats/sorted/limited/AuthUser/Backends requests and 6 fixed ones go to random nodes "
+                "and are compared with Lmd.distData / distStats and with the single-instance specification",
+        "correspondence": "Lmd.redistribute / quotas / handOut vs Nodes.redistribute; Lmd.NodeView.check vs Nodes.checkNodeAvailability (views after convergence); Lmd.distData / distStats vs getDistributedResponse / mergeDistributedResponse (answers of running clusters)",
+        "assumptions": ["the 10 s node loop and the 3 s heartbeat are driven by the harness (checks run when the harness says so, heartbeat 1 s); TLS between nodes, pass-through tables in cluster mode and more than 3 running nodes are not exercised (see DESIGN.md)"],
     },
     "C15": {
         "lean_modules": ["C15"],
